@@ -46,7 +46,31 @@ MENU_PE = [
     ("trim_n", dict(trim_n=True)),
     ("length_tag", dict(length_tag="length=")),
     ("zero_cap", dict(zero_cap=True)),
+    ("rename", dict(rename="{id} {rn}_{adapter_name}_{r2.adapter_name}_{r1.cut_prefix} {comment}")),
 ]
+
+
+def pair_rename(template, a, b):
+    """Documented paired-end renaming: placeholders are evaluated per read; {rn} is 1/2; {r1.x}/{r2.x} always refer to R1/R2."""
+    def fields(rec):
+        parts = rec.name.split(maxsplit=1)
+        id_, comment = (parts[0], parts[1]) if len(parts) == 2 else (rec.name, "")
+        return dict(id=id_, comment=comment, header=rec.name, cut_prefix=rec.cut_prefix or "", cut_suffix=rec.cut_suffix or "",
+                    adapter_name=rec.matches[-1].name if rec.matches else "no_adapter",
+                    match_sequence=rec.matches[-1].match_sequence if rec.matches else "")
+    fa, fb = fields(a), fields(b)
+    out = []
+    for rn, own in ((1, fa), (2, fb)):
+        t = template
+        for k, v in fa.items():
+            t = t.replace("{r1." + k + "}", v)
+        for k, v in fb.items():
+            t = t.replace("{r2." + k + "}", v)
+        t = t.replace("{rn}", str(rn))
+        for k, v in own.items():
+            t = t.replace("{" + k + "}", v)
+        out.append(t)
+    return out
 
 
 def merge(frags):
@@ -228,8 +252,13 @@ def run_shard(d):
         opts = merge(frags)
         a1, a2 = make_adapters(opts)
         model = refpipe.Model(opts, a1, a2, paired=paired)
-        exp1 = [model.process(n, s, q, 0).tup() for n, s, q in inrecs]
-        exp2 = [model.process(n, s, q, 1).tup() for n, s, q in recs2] if paired else None
+        p1 = [model.process(n, s, q, 0) for n, s, q in inrecs]
+        p2 = [model.process(n, s, q, 1) for n, s, q in recs2] if paired else None
+        if paired and opts.get("rename"):
+            for a, b in zip(p1, p2):
+                a.name, b.name = pair_rename(opts["rename"], a, b)
+        exp1 = [r.tup() for r in p1]
+        exp2 = [r.tup() for r in p2] if paired else None
         changed = sum(1 for a, b in zip(exp1, inrecs) if a != tuple(b))
         names = [f[0] for f in frags]
         keys_of = {f[0]: list(f[1]) for f in frags}
@@ -307,7 +336,7 @@ def run(tier):
     R.assumptions = ["fixed parameter values per option (menu in vf/checks/c10.py)", "corpus = shortest reads over {A,C,G,N} x {low,high} "
                      "quality on which two reference steps do not commute + 14 hand-made reads"]
     return R.finish(tot.get("evals", 0), tot.get("nontrivial", 0),
-                    "operation sequences = every subset of 13 single-end / 13 paired-end read-modifying options x command-line orders (all "
+                    "operation sequences = every subset of 13 single-end / 14 paired-end read-modifying options x command-line orders (all "
                     "permutations of subsets up to size 3 (thorough 4), else documented/reversed/rotated) x every corpus read; "
                     "non-trivial = the reference changes the read",
                     True, extra=dict(cli_runs=tot.get("runs", 0)))
